@@ -176,7 +176,7 @@ func c08Program(format bool, file string, globals []string, defined []bool, gaps
 func VC08() {
 	ng := vrt.Choose("nglobals", 5)
 	fileLen := []int{0, 1, 17, 18, 19, 40}[vrt.Choose("filelen", 6)]
-	variant := vrt.ChooseStr("variant", []string{"all-defined", "one-undefined", "duplicate", "mixed-lengths"})
+	variant := vrt.ChooseStr("variant", []string{"all-defined", "one-undefined", "duplicate", "mixed-lengths", "big"})
 	var globals []string
 	var defined []bool
 	var gaps []int
@@ -190,6 +190,10 @@ func VC08() {
 		globals = append(globals, nameOf(i, l))
 		defined = append(defined, !(variant == "one-undefined" && i == 0))
 		gaps = append(gaps, []int{0, 1, 254, 4}[i%4])
+		if variant == "big" && i == 0 {
+			// an object larger than any buffer a writer might start with
+			gaps[0] = 5000
+		}
 	}
 	if variant == "duplicate" && ng > 0 {
 		globals = append(globals, globals[0])
